@@ -23,16 +23,16 @@ import (
 func init() {
 	Registry["C10"] = &Check{
 		Scenarios: c10Scenarios,
-		Rule: "scheduled (preemption bound 2, thorough 3): an application goroutine consumes HandshakeNotify and attaches a value to the connection context (Context / SetContext) at every instant relative to the serving goroutine, the peer sends RAR and CCR once it has the CEA; the server side of a connection over TLS (crypto/tls on both ends of the in-memory transport): CER with Inband-Security-Id {absent, 0, 1} x applications {shared, unsupported, none, vendor-specific unsupported, wrong type} followed by RAR / STR / ACR in the same TLS record; one state machine serves 300 sequential peers (CER, then RAR / STR / ACR for the by-name, by-index and catch-all handlers), with the optional HandshakeNotify channel never read, drained, and read once (the application stays busy with its first peer); Disconnect-Peer requests among the application messages of every history; on the server side another peer has completed its capabilities exchange with the same state machine on a connection of its own before every history; message flag bits P and T rotate with the position in the history; server side: every history of <=4 (thorough 5) peer messages over {acceptable CER, CER without common application, CER lacking Origin-Host and every application AVP, retransmitted CER, DWR, RAR (app 0), RAA, CCR (app 4), ACR (app 3)}; client side (sm.Client.NewConn): every history of <=4 (thorough 5) messages over {success CEA, failing CEA (result code rotating over 5010, 1001, 3004, 1, 4001, 5012), application-less CEA, a CER sent by the peer, DWR, RAR, RAA, CCA} sent in reply to the CER; application handlers registered by short name, by index and as catch-all (three configurations; names and the catch-all through HandleFunc in the one-segment histories and through Handle with a handler object in the others), each after attempts to register CER / CEA / DWR by name and by index; each history delivered in one segment and one segment per message; and histories (one shorter, with an unsolicited success CEA added to the alphabet) on an accepted connection served by a state machine that is also the handler of an sm.Client whose dial has completed. Plus scheduled scenarios (preemption bound 2, thorough 3): the peer never answers the CER and sends application requests half an interval before, exactly at and half an interval after the instant the client's handshake gives up. One deterministic schedule per history on the instrumented build (the quantifier is over histories; the scheduler supplies determinism and an exact notion of quiescence). Oracle: the sequence of application-handler invocations equals the gate model (invoked iff the handshake succeeded earlier on this connection), refused registrations never run, and the built-in CEA/DWA are still produced.",
+		Rule: "scheduled (preemption bound 2, thorough 3): an application goroutine consumes HandshakeNotify and attaches a value to the connection context (Context / SetContext) at every instant relative to the serving goroutine, the peer sends RAR and CCR once it has the CEA; the server side of a connection over TLS (crypto/tls on both ends of the in-memory transport): CER with Inband-Security-Id {absent, 0, 1} x applications {shared, unsupported, none, vendor-specific unsupported, wrong type} followed by RAR / STR / ACR in the same TLS record; one state machine serves 300 sequential peers (CER, then RAR / STR / ACR for the by-name, by-index and catch-all handlers), with the optional HandshakeNotify channel never read, drained, and read once (the application stays busy with its first peer); Disconnect-Peer requests among the application messages of every history; on the server side another peer has completed its capabilities exchange with the same state machine on a connection of its own before every history; message flag bits P and T rotate with the position in the history; server side: every history of <=4 (thorough 5) peer messages over {acceptable CER, CER without common application, CER whose only application is 0xfffffffe (as Auth-, Acct- and vendor-specific id) or 0xfffffffd - neighbours of the relay id, CER lacking Origin-Host and every application AVP, retransmitted CER, DWR, RAR (app 0), RAA, CCR (app 4), ACR (app 3)}; client side (sm.Client.NewConn): every history of <=4 (thorough 5) messages over {success CEA, failing CEA (result code rotating over 5010, 1001, 3004, 1, 4001, 5012), application-less CEA, success CEA whose only application is 0xfffffffe / 0xfffffffd, a CER sent by the peer, DWR, RAR, RAA, CCA} sent in reply to the CER; application handlers registered by short name, by index and as catch-all (three configurations; names and the catch-all through HandleFunc in the one-segment histories and through Handle with a handler object in the others), each after attempts to register CER / CEA / DWR by name and by index; each history delivered in one segment and one segment per message; and histories (one shorter, with an unsolicited success CEA added to the alphabet) on an accepted connection served by a state machine that is also the handler of an sm.Client whose dial has completed. Plus scheduled scenarios (preemption bound 2, thorough 3): the peer never answers the CER and sends application requests half an interval before, exactly at and half an interval after the instant the client's handshake gives up. One deterministic schedule per history on the instrumented build (the quantifier is over histories; the scheduler supplies determinism and an exact notion of quiescence). Oracle: the sequence of application-handler invocations equals the gate model (invoked iff the handshake succeeded earlier on this connection), refused registrations never run, and the built-in CEA/DWA are still produced.",
 		Assume: []string{"single default schedule per history", "reference gate model {handshake done, closed}"},
 		QuickBudget: 120, ThoroughBudget: 1800,
 	}
 }
 
-var c10ServerAlpha = []string{"cer", "cer-noapp", "cer-bare", "cer-retx", "dwr", "rar", "raa", "ccr", "acr", "dpr"}
+var c10ServerAlpha = []string{"cer", "cer-noapp", "cer-rsvapp", "cer-bare", "cer-retx", "dwr", "rar", "raa", "ccr", "acr", "dpr"}
 var c10FailCodes = []uint32{5010, 1001, 3004, 1, 4001, 5012}
 
-var c10ClientAlpha = []string{"cea", "cea-fail", "cea-noapp", "cer", "dwr", "rar", "raa", "cca", "dpr"}
+var c10ClientAlpha = []string{"cea", "cea-fail", "cea-noapp", "cea-rsvapp", "cer", "dwr", "rar", "raa", "cca", "dpr"}
 
 func c10Msg(kind string, seq int) []byte {
 	id := uint32(100 + seq)
@@ -58,6 +58,10 @@ func c10Msg(kind string, seq int) []byte {
 			return refcodec.EncodeMessage(h(0x80, 257, 0), av)
 		}
 		return refcodec.EncodeMessage(h(0x80, 257, 0), cerAVPs(999))
+	case "cer-rsvapp":
+		// the only application is an id next to the relay id 0xffffffff (which alone is common with
+		// everything): reserved or merely unsupported ids are applications like 999
+		return refcodec.EncodeMessage(h(0x80, 257, 0), append(cerAVPs(0)[:len(cerAVPs(0))-1], c10RsvApp(seq)))
 	case "cer-bare":
 		// unacceptable only because AVPs are ABSENT: no Origin-Host, no application AVP at all
 		return refcodec.EncodeMessage(h(0x80, 257, 0), []refcodec.Node{ident(296, "test"), {Code: 257, Flags: 0x40, Payload: refcodec.Address(1, []byte{10, 0, 0, 9})},
@@ -82,6 +86,21 @@ func c10Msg(kind string, seq int) []byte {
 		return refcodec.EncodeMessage(h(0x80, 282, 0), append([]refcodec.Node{{Code: 273, Flags: 0x40, Payload: refcodec.U32(0)}}, base...))
 	}
 	panic(kind)
+}
+
+// c10RsvApp: application AVPs naming ids at the top of the 32-bit range that are NOT the relay id:
+// 0xfffffffe as Auth-Application-Id, as Acct-Application-Id and inside a
+// Vendor-Specific-Application-Id group, and 0xfffffffd.
+func c10RsvApp(seq int) refcodec.Node {
+	switch seq % 4 {
+	case 1:
+		return u32avp(259, 0xfffffffe)
+	case 2:
+		return refcodec.Node{Code: 260, Flags: 0x40, Group: true, Children: []refcodec.Node{u32avp(266, 10415), u32avp(258, 0xfffffffe)}}
+	case 3:
+		return u32avp(258, 0xfffffffd)
+	}
+	return u32avp(258, 0xfffffffe)
 }
 
 // appKey is the handler key a message of this kind selects ("" = not an application message).
@@ -293,7 +312,7 @@ func c10Shared(r *SeqResult, cfg string, hists [][]string) {
 				if !hs && !closed && !sawCEA {
 					hs = true
 				}
-			case "cer-noapp", "cer-bare":
+			case "cer-noapp", "cer-rsvapp", "cer-bare":
 				if !hs && !closed && !sawCEA {
 					closed = true
 				}
@@ -389,7 +408,7 @@ func c10Server(r *SeqResult, cfg string, oneSeg bool, hists [][]string) {
 					hs = true
 					wantCEA = append(wantCEA, 2001)
 				}
-			case "cer-noapp":
+			case "cer-noapp", "cer-rsvapp":
 				if !hs && !closed {
 					closed = true
 					wantCEA = append(wantCEA, 5010)
@@ -499,6 +518,16 @@ func c10Client(r *SeqResult, cfg string, oneSeg bool, hists [][]string) {
 						m = peerAnswer(cer, c10FailCodes[uint(h)%uint(len(c10FailCodes))], true)
 					case "cea-noapp":
 						m = peerAnswer(cer, 2001, false)
+					case "cea-rsvapp":
+						// a success CEA whose only application is an id next to the relay id
+						b := peerAnswer(cer, 2001, false)
+						hd, _ := refcodec.DecodeHeader(b)
+						recs, _, _ := refcodec.Frame(b[20:], nil)
+						var nodes []refcodec.Node
+						for _, r := range recs {
+							nodes = append(nodes, refcodec.Node{Code: r.Code, Flags: r.Flags, Vendor: r.Vendor, Payload: r.Payload})
+						}
+						m = refcodec.EncodeMessage(hd, append(nodes, c10RsvApp(i)))
 					default:
 						m = c10Msg(k, i)
 					}
@@ -532,7 +561,7 @@ func c10Client(r *SeqResult, cfg string, oneSeg bool, hists [][]string) {
 				if !hs && !failed {
 					hs = true
 				}
-			case "cea-fail", "cea-noapp":
+			case "cea-fail", "cea-noapp", "cea-rsvapp":
 				if !hs && !failed {
 					failed = true
 				}
